@@ -101,6 +101,21 @@ theorem service_throws_bare_name_insufficient :
 /-- regenerated obligation: fastgo's getSortedFields orders by the field id (unique within a struct: C04). -/
 theorem sorted_fields_sorts_by_id : sortedFieldsLess = ("e.ID", "<", "e.ID") := by decide
 
+/-! ## a consumer that is order-sensitive by design: output names, first come first served -/
+
+/-- two IDLs that map to one output file: whichever is rendered first keeps the name. -/
+theorem feed_rename_order_sensitive :
+    feedRename [120] [[1], [2]] ≠ (feedRename [120] [[2], [1]]) ∧
+    ¬ (feedRename [120] [[1], [2]]).Perm (feedRename [120] [[2], [1]]) := by decide
+
+/-- regenerated obligation: the loops that render one IDL per iteration — `(*GoBackend).executeTemplates`
+(calls renderOneFile) and `(*FastGoBackend).Generate` (calls GenerateOne) — range over a channel (the
+DepthFirstSearch sequence), not over a map. This is the only reason `feed_rename_order_sensitive` does no
+harm: no permutation-invariance theorem covers Feed's renaming, so a map here is a defect whatever its class. -/
+theorem render_loops_range_over_the_dfs_sequence :
+    renderLoops = [("generator/fastgo", "(*FastGoBackend).Generate", "chan"),
+                   ("generator/golang", "(*GoBackend).executeTemplates", "chan")] := by decide
+
 /-! ## class `filter`: the loop deletes the entries that fail a per-entry test -/
 
 /-- The same entries survive whatever the order of the visit (a Go map is determined by its entries). -/
